@@ -48,6 +48,20 @@ pub struct Ctx {
 }
 
 impl Ctx {
+    /// a context outside the sharded search (fuzz targets, conversions): thorough tier, shard 0, own scratch directory
+    pub fn standalone(tag: &str) -> Ctx {
+        static SCRATCH: std::sync::OnceLock<PathBuf> = std::sync::OnceLock::new();
+        let scratch = SCRATCH.get_or_init(|| {
+            let base = if Path::new("/dev/shm").is_dir() { PathBuf::from("/dev/shm") } else { verif_dir().join("out/scratch") };
+            let p = base.join(format!("vcheck-{}-{}", tag, std::process::id()));
+            let _ = std::fs::create_dir_all(&p);
+            p
+        });
+        static KNOWN: std::sync::OnceLock<HashSet<String>> = std::sync::OnceLock::new();
+        let switches = KNOWN.get_or_init(|| switches_for(&load_known())).clone();
+        Ctx { tier: Tier::Thorough, seed: env_seed(), switches, scratch: scratch.clone(), shard: 0 }
+    }
+
     pub fn excluded(&self, switch: &str) -> bool {
         self.switches.contains(switch)
     }
